@@ -331,6 +331,9 @@ var (
 
 const maxFrameHeaderSize = 9
 
+// frameReadChunk is how much readFrame allocates ahead of the data for a large frame.
+const frameReadChunk = 1 << 20
+
 func readInt(p []byte) int32 {
 	return int32(p[0])<<24 | int32(p[1])<<16 | int32(p[2])<<8 | int32(p[3])
 }
@@ -511,15 +514,45 @@ func (f *framer) readFrame(r io.Reader, head *frameHeader) error {
 		return ErrFrameTooBig
 	}
 
-	if cap(f.readBuffer) >= head.length {
-		f.buf = f.readBuffer[:head.length]
-	} else {
-		f.readBuffer = make([]byte, head.length)
-		f.buf = f.readBuffer
-	}
+	var (
+		n   int
+		err error
+	)
+	if cap(f.readBuffer) >= head.length || head.length <= frameReadChunk {
+		if cap(f.readBuffer) >= head.length {
+			f.buf = f.readBuffer[:head.length]
+		} else {
+			f.readBuffer = make([]byte, head.length)
+			f.buf = f.readBuffer
+		}
 
-	// assume the underlying reader takes care of timeouts and retries
-	n, err := io.ReadFull(r, f.buf)
+		// assume the underlying reader takes care of timeouts and retries
+		n, err = io.ReadFull(r, f.buf)
+	} else {
+		// The header only announces the length. Let the buffer grow with the bytes that
+		// actually arrive, so that a few header bytes cannot make us allocate maxFrameSize.
+		buf := make([]byte, 0, frameReadChunk)
+		for len(buf) < head.length && err == nil {
+			grow := len(buf)
+			if grow < frameReadChunk {
+				grow = frameReadChunk
+			}
+			if grow > head.length-len(buf) {
+				grow = head.length - len(buf)
+			}
+			if cap(buf)-len(buf) < grow {
+				bigger := make([]byte, len(buf), len(buf)+grow)
+				copy(bigger, buf)
+				buf = bigger
+			}
+			var k int
+			k, err = io.ReadFull(r, buf[len(buf):len(buf)+grow])
+			buf = buf[:len(buf)+k]
+		}
+		n = len(buf)
+		f.readBuffer = buf[:cap(buf)]
+		f.buf = buf
+	}
 	if err != nil {
 		return fmt.Errorf("unable to read frame body: read %d/%d bytes: %v", n, head.length, err)
 	}
